@@ -54,6 +54,52 @@ func init() {
 					// a stream only exists at the peer once a frame was sent; with no data the closing frame
 					// itself opens and closes it
 				}
+				if mode == "srvinit" {
+					// the accepting side writes and closes; the opening side (which only sent one byte) reads
+					wg.Add(2)
+					vrt.Go("srv-writer", func() {
+						defer wg.Done()
+						conn, err := r.srv.Accept()
+						if err != nil {
+							vrt.Fail("harness", "Accept: %v", err)
+						}
+						ss := conn.(*Stream)
+						b := make([]byte, 4)
+						ss.Read(b)
+						if nd > 0 {
+							if n, err := ss.Write(data); err != nil || n != nd {
+								vrt.Fail("write-before-close", "server Write(%d) = %d, %v", nd, n, err)
+							}
+						}
+						if err := ss.Close(); err != nil {
+							vrt.Fail("close-ok", "server Close returned %v", err)
+						}
+						if n, err := ss.Write([]byte{0xff}); err == nil {
+							vrt.Fail("write-after-close-fails", "Write after Close returned %d, nil", n)
+						}
+					})
+					quiesce()
+					vrt.Go("cli-reader", func() {
+						defer wg.Done()
+						if _, err := cs.Write([]byte{0x42}); err != nil {
+							vrt.Fail("harness", "client first write: %v", err)
+						}
+						got, err := readAll(cs)
+						if !errors.Is(err, ErrBrokenStream) {
+							vrt.Fail("end-of-stream-error", "client Read ended with %v, want ErrBrokenStream", err)
+						}
+						if !bytes.Equal(got, data) {
+							vrt.Fail("all-bytes-before-eof", "client read %d bytes before end-of-stream, the server wrote %d bytes before Close", len(got), nd)
+						}
+						if n, err := cs.Write([]byte{1}); err == nil {
+							vrt.Fail("write-after-peer-close-fails", "Write after the peer's close was observed returned %d, nil", n)
+						}
+						vrt.Observe("cli-got=%d", len(got))
+					})
+					wg.Wait()
+					vrt.Observe("srv-initiated")
+					return
+				}
 				startClient := func() {
 					wg.Add(1)
 					vrt.Go("cli-writer", func() {
@@ -165,6 +211,16 @@ func init() {
 				quiesce()
 				startClient()
 				wg.Wait()
+				quiesce()
+				if mode != "srvinit" {
+					// a singleplex session closes with its single stream; a multiplexed one stays up
+					if singleplex && (!r.cli.IsClosed() || !r.srv.IsClosed()) {
+						vrt.Fail("singleplex-closes-with-its-stream", "singleplex: after the stream was closed, client session closed=%v, server session closed=%v", r.cli.IsClosed(), r.srv.IsClosed())
+					}
+					if !singleplex && (r.cli.IsClosed() || r.srv.IsClosed()) {
+						vrt.Fail("session-survives-stream-close", "closing one stream closed a multiplexed session: client=%v (%q) server=%v (%q)", r.cli.IsClosed(), r.cli.TerminalMsg(), r.srv.IsClosed(), r.srv.TerminalMsg())
+					}
+				}
 				vrt.Observe("cliClosed=%v srvClosed=%v", r.cli.IsClosed(), r.srv.IsClosed())
 			},
 		}
@@ -191,6 +247,8 @@ func init() {
 			{Scenario: "mux.close", Params: vx.P("data", "300", "mode", "local"), Bound: b(1, 2), Weight: 6},
 			{Scenario: "mux.close", Params: vx.P("data", "5", "singleplex", "1", "conns", "1"), Bound: b(2, 3), Weight: 4},
 			{Scenario: "mux.close", Params: vx.P("data", "300", "method", "aes-128-gcm"), Bound: b(1, 2), Weight: 5},
+			{Scenario: "mux.close", Params: vx.P("data", "300", "mode", "srvinit"), Bound: b(2, 3), Weight: 6},
+			{Scenario: "mux.close", Params: vx.P("data", "0", "mode", "srvinit", "conns", "3", "delay", "1"), Bound: b(2, 3), Weight: 6},
 		}
 		for i := range jobs {
 			jobs[i].BudgetS = b(100, 900)
